@@ -15,6 +15,7 @@ pub fn last_panic_loc() -> String {
 mod ops;
 mod opts;
 mod tree;
+mod ops_cli;
 // component op modules: add `mod ops_<name>;` here and its dispatch function to COMPONENTS
 // (signature: fn(op: &str, args: &[String]) -> Option<String>; None = not mine)
 mod ops_anchors;
@@ -23,6 +24,7 @@ mod ops_arena;
 pub const COMPONENTS: &[fn(&str, &[String]) -> Option<String>] = &[
     ops_anchors::dispatch,
     ops_arena::dispatch,
+    ops_cli::dispatch,
 ];
 
 #[allow(dead_code)]
